@@ -6,6 +6,12 @@
 //  (ii)  root == root of a fresh real trie built from the resulting map in ONE batch (history independence)
 //  (iii) a fresh trie instance opened on the store at any committed root answers that commit's map
 //  (iv)  the store is content-addressed and persistent: no Delete, no Set that changes an existing pair
+// Storage layer (model: Aergo.Model.TrieStore), after a commit, sampled:
+//   sbatch <path>   the batch the store holds under the batch root reached by <path> (4j bits) in the committed tree,
+//                   against the model's `layout` of that subtree (child references as hash terms, evaluated here)
+//   ser …           model serializeBatch of that batch against the stored bytes themselves
+//   sget root key pairs…  the real Get of a fresh instance, against the model's get-through-the-store (`getRoot`)
+//                   run on exactly the pairs the real code read (and with one of them withheld: both must fail)
 package main
 
 import (
@@ -21,6 +27,7 @@ import (
 	"github.com/aergoio/aergo-lib/db"
 	"github.com/aergoio/aergo/v2/internal/common"
 	"github.com/aergoio/aergo/v2/pkg/trie"
+	"github.com/aergoio/aergo/v2/types/dbkey"
 	"github.com/aergoio/aergo/v2/zz_verif/vh"
 )
 
@@ -30,6 +37,16 @@ type monStore struct {
 	db.DB
 	bad    []string
 	values [][]byte // values written since the last drain (serialised trie batches)
+	rec    *[][2][]byte
+}
+
+// Get records the pairs read while rec is set (what a fresh instance loads on its way down to a key).
+func (m *monStore) Get(k []byte) []byte {
+	v := m.DB.Get(k)
+	if m.rec != nil {
+		*m.rec = append(*m.rec, [2][]byte{append([]byte{}, k...), append([]byte{}, v...)})
+	}
+	return v
 }
 
 func (m *monStore) Set(k, v []byte) {
@@ -105,7 +122,34 @@ func evalTerm(tok []string, pos *int, top bool) []byte {
 	panic("bad term token " + t)
 }
 
+// evalSbatch: `sbatch sc=b ; slot ; slot …` with slot = - | K <key hex> | V <value hex> | R <flag> <hash term>
+// becomes the rendered batch (renderBatch format) with every reference hashed by the node's hasher.
+func evalSbatch(line string) string {
+	parts := strings.Split(line, " ; ")
+	var out []string
+	for _, p := range parts[1:] {
+		f := strings.Fields(p)
+		switch f[0] {
+		case "-":
+			out = append(out, "-")
+		case "K", "V":
+			out = append(out, f[1]+"02")
+		case "R":
+			pos := 2
+			h := evalTerm(f, &pos, false)
+			fl, _ := strconv.Atoi(f[1])
+			out = append(out, hex.EncodeToString(append(append([]byte{}, h...), byte(fl))))
+		default:
+			panic("bad sbatch slot " + p)
+		}
+	}
+	return strings.Replace(parts[0], "sbatch ", "sbatch batch ", 1) + " " + strings.Join(out, ",")
+}
+
 func evalLine(line string) string {
+	if strings.HasPrefix(line, "sbatch sc=") {
+		return evalSbatch(line)
+	}
 	if !strings.HasPrefix(line, "root ") {
 		return line
 	}
@@ -288,6 +332,7 @@ func (s *sess) commit() {
 	s.commits = append(s.commits, commitRec{append([]byte{}, s.tr.Root...), m})
 	s.op("commit", fmt.Sprintf("ok %d", len(s.commits)-1), false)
 	s.batchCodec()
+	s.storeLayer()
 	if len(s.store.bad) > 0 {
 		s.fail("store is not persistent/content-addressed: " + s.store.bad[0])
 		s.store.bad = nil
@@ -367,6 +412,192 @@ func (s *sess) batchCodec() {
 			}
 			s.op("par "+hex.EncodeToString(cut), out, out != "panic")
 			s.run.Count("batch-codec-truncated-value")
+		}
+	}
+}
+
+// ---- storage layer against the model (TrieStore) ------------------------------
+
+var triePrefix = len(dbkey.Trie(nil))
+
+// slotPath: the path (0 = left) from the batch root to heap slot i.
+func slotPath(i int) string {
+	p := ""
+	for i > 0 {
+		if i%2 == 1 {
+			p = "0" + p
+		} else {
+			p = "1" + p
+		}
+		i = (i - 1) / 2
+	}
+	return p
+}
+
+func slotIndex(path string) int {
+	i := 0
+	for _, c := range path {
+		i = 2*i + 1
+		if c == '1' {
+			i++
+		}
+	}
+	return i
+}
+
+func keyBits(k []byte, n int) string {
+	var sb strings.Builder
+	for i := 0; i < n; i++ {
+		if k[i/8]&(1<<uint(7-i%8)) != 0 {
+			sb.WriteByte('1')
+		} else {
+			sb.WriteByte('0')
+		}
+	}
+	return sb.String()
+}
+
+// sbatchAt: compare the stored batch under `hash` (reached by `path` from the committed root) with the model.
+func (s *sess) sbatchAt(path string, hash []byte) [][]byte {
+	name := path
+	if name == "" {
+		name = "-"
+	}
+	if len(hash) == 0 {
+		s.op("sbatch "+name, "sbatch none", false)
+		s.run.Count("sbatch-none")
+		return nil
+	}
+	v := s.store.DB.Get(dbkey.Trie(hash[:trie.HashLength]))
+	if len(v) == 0 {
+		s.op("sbatch "+name, "sbatch missing", true)
+		s.fail(fmt.Sprintf("the store has nothing under the batch root %x at path %s of the committed tree", hash, name))
+		return nil
+	}
+	var b [][]byte
+	out, _ := vh.Guard(func() string { b = trie.VerifC10ParseBatch(v); return "sbatch " + renderBatch(b) })
+	if strings.HasPrefix(out, "panic") {
+		out = "sbatch panic"
+		b = nil
+	}
+	s.op("sbatch "+name, out, true)
+	s.run.Count(fmt.Sprintf("sbatch-depth=%d", min(len(path)/4, 8)))
+	if b == nil {
+		return nil
+	}
+	if b[0][0] == 1 {
+		s.run.Count("sbatch-shortcut-batch")
+	}
+	// the model's serializeBatch of these slots against the stored bytes themselves
+	flag := "0"
+	if b[0][0] == 1 {
+		flag = "1"
+	}
+	var parts []string
+	for j := 1; j <= 30; j++ {
+		if len(b[j]) == 0 {
+			parts = append(parts, "-")
+		} else {
+			parts = append(parts, hex.EncodeToString(b[j]))
+		}
+	}
+	s.op("ser "+flag+" "+strings.Join(parts, " "), "ser "+hex.EncodeToString(v), true)
+	return b
+}
+
+// storeLayer: after a commit, walk down the committed tree through the real store, batch by batch.
+func (s *sess) storeLayer() {
+	if s.run.Rng.Intn(12) != 0 {
+		return
+	}
+	rng := s.run.Rng
+	root := append([]byte{}, s.tr.Root...)
+	// (1) batches: the root batch, then down a random non-empty slot of the bottom level, or along a key of the universe
+	var along []byte
+	if len(s.univ) > 0 && rng.Chance(1, 2) {
+		along = s.univ[rng.Intn(len(s.univ))]
+	}
+	path, hash := "", root
+	for depth := 0; depth < 64; depth++ {
+		b := s.sbatchAt(path, hash)
+		if b == nil || b[0][0] == 1 || (depth > 0 && rng.Chance(1, 4)) {
+			break
+		}
+		next := 0
+		if along != nil {
+			next = slotIndex(keyBits(along, len(path) + 4)[len(path):])
+		} else {
+			var cand []int
+			for i := 15; i <= 30; i++ {
+				if len(b[i]) != 0 && b[i][trie.HashLength] != 2 { // 2: key/value of a shortcut one level up, not a child
+					cand = append(cand, i)
+				}
+			}
+			if len(cand) == 0 {
+				break
+			}
+			next = cand[rng.Intn(len(cand))]
+		}
+		path += slotPath(next)
+		if len(b[next]) == 0 || b[next][trie.HashLength] == 2 {
+			hash = nil
+			// one more op: the model must agree that nothing is stored below
+			s.sbatchAt(path, nil)
+			break
+		}
+		hash = b[next]
+	}
+	// (2) get through the store on a fresh instance, with the pairs it read
+	if len(s.univ) == 0 {
+		return
+	}
+	for n := 0; n < 2; n++ {
+		k := s.univ[rng.Intn(len(s.univ))]
+		var rec [][2][]byte
+		s.store.rec = &rec
+		t := trie.NewTrie(root, common.Hasher, s.store)
+		v, err := t.Get(k)
+		s.store.rec = nil
+		out := "nil"
+		if err != nil {
+			out = "err"
+		} else if len(v) != 0 {
+			out = hex.EncodeToString(v)
+		}
+		var parts []string
+		for _, p := range rec {
+			parts = append(parts, hex.EncodeToString(p[0][triePrefix:])+"="+hex.EncodeToString(p[1]))
+		}
+		rs := "-"
+		if len(root) != 0 {
+			rs = hex.EncodeToString(root)
+		}
+		s.op("sget "+rs+" "+hex.EncodeToString(k)+" "+strings.Join(parts, " "), out, len(v) != 0)
+		s.run.Count(fmt.Sprintf("sget-batches-read=%d", min(len(rec), 8)))
+		if err != nil {
+			s.fail(fmt.Sprintf("fresh instance at the committed root cannot read %x: %v", k, err))
+		}
+		if len(rec) > 0 && rng.Chance(1, 2) {
+			// withhold one of the pairs: the real trie on such a store and the model must both fail
+			drop := rng.Intn(len(rec))
+			mem := db.NewDB(db.MemoryImpl, "")
+			var kept []string
+			for i, p := range rec {
+				if i != drop {
+					mem.Set(p[0], p[1])
+					kept = append(kept, parts[i])
+				}
+			}
+			t2 := trie.NewTrie(root, common.Hasher, mem)
+			v2, err2 := t2.Get(k)
+			out2 := "nil"
+			if err2 != nil {
+				out2 = "err"
+			} else if len(v2) != 0 {
+				out2 = hex.EncodeToString(v2)
+			}
+			s.op("sget "+rs+" "+hex.EncodeToString(k)+" "+strings.Join(kept, " "), out2, true)
+			s.run.Count("sget-pair-withheld")
 		}
 	}
 }
